@@ -69,14 +69,12 @@ def pro_kids(pro: bytes) -> list[bytes]:
 def drm_vectors(tier_: str, rng: random.Random) -> list[str]:
     systems = ['playready', 'clearkey', 'marlin']
     locs = ['', '-moov', '-cenc', '-pro', '-cenc-moov', '-moov-pro', '-cenc-pro', '-cenc-moov-pro']
-    out = ['drm=all', 'drm=all-moov', 'drm=all-cenc', 'drm=none', '']
+    out = ['drm=all', 'drm=all-moov', 'drm=all-cenc', 'drm=all-pro', 'drm=all-cenc-pro', 'drm=all-moov-pro', 'drm=none', '']
     for s in systems:
         for lc in locs:
-            if 'pro' in lc and s != 'playready':
-                continue
-            out.append(f'drm={s}{lc}')
+            out.append(f'drm={s}{lc}')       # every system with every subset of locations (`pro` means nothing to ClearKey / Marlin)
     out += ['drm=playready,clearkey', 'drm=playready-cenc,clearkey-moov', 'drm=marlin,clearkey-moov', 'drm=playready-moov,marlin',
-            'drm=clearkey-cenc,playready-pro',
+            'drm=clearkey-cenc,playready-pro', 'drm=marlin,clearkey-pro', 'drm=marlin-pro,clearkey-cenc-pro',
             # lists that mix entries with and without a location list: an entry without one means every location
             'drm=playready-pro,clearkey', 'drm=clearkey-cenc,playready', 'drm=playready-pro-cenc,marlin,clearkey', 'drm=clearkey,playready-pro']
     extra = ['', '&playready__version=1.0', '&playready__version=2.0', '&playready__version=4.0', '&playready__piff=0',
